@@ -350,6 +350,10 @@ def suites(tier, seed):
     rnd = random.Random(seed * 97 + 16)
     thorough = tier == "thorough"
     cases = [gen_case(rnd, plain_text=(i % 3 != 2)) for i in range(2500 if thorough else 500)]
+    for i, c in enumerate(cases):
+        if i % 4 == 1:
+            # feature files whose names contain further dots: the report is named after everything before the extension, one per feature
+            c["prog"]["cfg"]["file_infix"] = [".part", ".v1", ".x.y"][i % 3]
     runs = {"name": "reports", "cases": cases, "impl": impl_junit, "oracle": oracle, "shrink": shrink, "histogram": histogram,
             "nontrivial": lambda c, o: any(f["file"] and f["file"].get("cases") for f in o["features"]),
             "bound": "%d runs with hostile names, messages and captured output" % len(cases),
